@@ -837,6 +837,89 @@ def rule_r8(prog, res):
                     'second one can never be called')
 
 
+# ------------------------------------------------------------------- R9
+def rule_r9(prog, res):
+    res.rule('R9', 'the name a member method answers to is built from the '
+             'type name of its class, the accessor the interface compares '
+             'with; HTTP verbs reach the pattern matcher as they were sent')
+    d = prog.module('spyne.decorator')
+    itf = prog.cls('spyne.interface._base:Interface')
+    pm = itf.methods.get('process_method')
+    accessor = None
+    for c in ast.walk(pm.node):
+        if isinstance(c, ast.Compare) and 'method_object_name' in unparse(c):
+            for side in [c.left] + c.comparators:
+                if isinstance(side, ast.Call) and isinstance(
+                        side.func, ast.Attribute):
+                    accessor = side.func.attr
+    if accessor is None:
+        raise AnalysisError('Interface.process_method', 'comparison with the '
+                            'class part of the method name not found')
+    n = 0
+    for fn in d.functions.values():
+        for a in walk_no_defs(fn.node):
+            if not (isinstance(a, ast.Assign) and any(
+                    isinstance(t, ast.Name) and t.id in (
+                        '_in_message_name', '_out_message_name')
+                    for t in a.targets)):
+                continue
+            v = a.value
+            if not (isinstance(v, ast.BinOp) and isinstance(v.op, ast.Mod)
+                    and isinstance(v.right, ast.Tuple)):
+                continue
+            first = v.right.elts[0]
+            if '_self_ref_replacement' not in unparse(first):
+                continue
+            n += 1
+            ok = isinstance(first, ast.Call) and isinstance(
+                first.func, ast.Attribute) and first.func.attr == accessor
+            where = '%s:%d' % (d.relpath, a.lineno)
+            res.ob('R9', where, '%s: class part of the message name = %s '
+                   '(interface compares with %s())' % (
+                       fn.qualname, unparse(first), accessor),
+                   'ok' if ok else 'VIOLATED')
+            if not ok:
+                res.finding('R9', '%s|class-part|%s' % (fn.qualname,
+                                                        unparse(first)[:40]),
+                            where, 'the default message name of a member '
+                            'method is prefixed with %s, while '
+                            'Interface.process_method recognises the prefix '
+                            'by %s(): for a class whose type name differs '
+                            'from that value the published name is not found '
+                            'and a longer, unpublished name runs the '
+                            'function' % (unparse(first), accessor))
+    res.floor('R9', 'member-method message names', n, 1)
+    # HTTP verb: no case folding between the environ and match_pattern
+    w = prog.cls('spyne.server.wsgi:WsgiApplication')
+    f = w.methods.get('decompose_incoming_envelope')
+    k = 0
+    for c in calls_in(f.node):
+        if call_name(c) != 'match_pattern' or len(c.args) < 2:
+            continue
+        k += 1
+        verb = c.args[1]
+        srcs = [verb]
+        if isinstance(verb, ast.Name):
+            srcs = [b.value for b in walk_no_defs(f.node) if isinstance(
+                b, ast.Assign) and any(isinstance(t, ast.Name) and
+                                       t.id == verb.id for t in b.targets)]
+        folded = [x for v in srcs for x in ast.walk(v) if isinstance(
+            x, ast.Call) and call_name(x) in ('upper', 'lower', 'title',
+                                              'capitalize', 'casefold',
+                                              'strip')]
+        where = '%s:%d' % (f.module.relpath, c.lineno)
+        res.ob('R9', where, 'match_pattern receives the verb %s' % (
+            [unparse(v)[:50] for v in srcs]), 'VIOLATED' if folded else 'ok')
+        for x in folded[:1]:
+            res.finding('R9', 'WsgiApplication.decompose_incoming_envelope|'
+                        'verb-folded|%s' % call_name(x), where, 'the request '
+                        'method is passed through %s() before it is matched: '
+                        'verb patterns are compared exactly, so "delete" or '
+                        '"Get" now run the functions registered for DELETE '
+                        'and GET instead of finding nothing' % call_name(x))
+    res.floor('R9', 'match_pattern calls in the WSGI transport', k, 1)
+
+
 def run(prog, res, tier):
     res.run_rule(rule_r1, prog, res, tier)
     res.run_rule(rule_r2, prog, res)
@@ -846,6 +929,7 @@ def run(prog, res, tier):
     res.run_rule(rule_r6, prog, res)
     res.run_rule(rule_r7, prog, res)
     res.run_rule(rule_r8, prog, res)
+    res.run_rule(rule_r9, prog, res)
 
 
 _P = 'spyne/protocol/_base.py'
@@ -856,6 +940,17 @@ _W = 'spyne/server/wsgi.py'
 _X = 'spyne/protocol/xml.py'
 
 MUTANTS = [
+    Mutant('member-name-from-class-name', 'R9', 'fire', 'spyne/decorator.py',
+           lambda src: src.replace(
+               "(_self_ref_replacement.get_type_name(), _in_message_name)",
+               "(_self_ref_replacement.__name__, _in_message_name)"),
+           'class-part'),
+    Mutant('verb-upper-cased-before-match', 'R9', 'fire',
+           'spyne/server/wsgi.py',
+           in_func('WsgiApplication.decompose_incoming_envelope',
+                   "wsgi_env.get('REQUEST_METHOD', ''),",
+                   "wsgi_env.get('REQUEST_METHOD', '').upper(),"),
+           'verb-folded'),
     Mutant('same-key-silently-shadowed', 'R8', 'fire',
            'spyne/interface/_base.py',
            in_func('Interface.process_method',
